@@ -91,6 +91,17 @@ CONTROLS = [
     ('w2-flag-widens-ignore-include', 'W2', 'syn', 'parse_sv_str:mode-flag-misused', [(API,
         '        pre_defines,\n        include_paths,\n        ignore_include,\n        false, // strip_comments\n        0, // resolve_depth',
         '        pre_defines,\n        include_paths,\n        ignore_include || allow_incomplete,\n        false, // strip_comments\n        0, // resolve_depth', 1)]),
+    ('g4-locate-len-assigned', 'G4', 'syn', 'default_text:locate-field-assigned:len', [(CD,
+        '    let (s, a) = define_argument(s)?;\n    Ok((\n        s,\n        DefaultText {\n            nodes: (into_locate(a),),\n        },\n    ))',
+        '    let (s, a) = define_argument(s)?;\n    let len = a.fragment().trim_end().len();\n    let mut a = into_locate(a);\n    a.len = len;\n    Ok((s, DefaultText { nodes: (a,) }))', 1)]),
+    ('g4-concat-line-of-second', 'G4', 'syn', 'concat:concat-position', [(PARSER + 'utils.rs',
+        'Span::new_from_raw_offset(a.location_offset(), a.location_line(), c, a.extra)', 'Span::new_from_raw_offset(a.location_offset(), b.location_line(), c, a.extra)', 1)]),
+    ('g14-newline-is-line-ending', 'G14', 'syn', 'white_space:trivia-alphabet-incomplete:0d', [(PARSER + 'utils.rs',
+        '            map(multispace1, |x: Span| {\n                WhiteSpace::Newline(Box::new(into_locate(x)))', '            map(recognize(many1(line_ending)), |x: Span| {\n                WhiteSpace::Newline(Box::new(into_locate(x)))', 1)]),
+    ('x4-newline-blanks-copied', 'X4', 'syn', 'Enter(WhiteSpace):copies-variant:Newline', [(PPF,
+        '                if let WhiteSpace::Space(_) = x {', '                if let WhiteSpace::Space(_) | WhiteSpace::Newline(_) = x {', 1)]),
+    ('x3-merge-base-in-chars', 'X3', 'syn', 'PreprocessedText:merge', [(PPF,
+        '        let base = self.text.len();\n        self.text.push_str(&other.text);', '        let base = self.text.chars().count();\n        self.text.push_str(&other.text);', 1)]),
     ('x11-include-unguarded', 'X11', 'syn', 'open-unguarded', [(PPF, 'NodeEvent::Enter(RefNode::IncludeCompilerDirective(x)) if !ignore_include => {', 'NodeEvent::Enter(RefNode::IncludeCompilerDirective(x)) => {', 1)]),
     ('x12-search-reversed', 'X12', 'syn', 'search-order', [(PPF, '                    for include_path in include_paths {', '                    for include_path in include_paths.iter().rev() {', 1)]),
     ('p2-utf8-error-without-path', 'P2', 'syn', 'read-error', [(PPF, 'Err(Error::ReadUtf8(PathBuf::from(path.as_ref())))', 'Err(Error::ReadUtf8(PathBuf::new()))', 1)]),
